@@ -1,13 +1,17 @@
 #!/bin/bash
-# usage: tools/own_check.sh <seed-id>...   — applies each seed to a scratch worktree and runs the check of its own property (quick)
-R=/tmp/seedrepo/r20; O=/tmp/seedrepo/v20
+# usage: tools/own_check.sh [-s slot] <seed-id>...  — applies each seed to a scratch worktree and runs the check of its own
+# property (quick) from a snapshot of /verif's working tree (so later edits in /verif do not leak into the run)
+SLOT=20; if [ "$1" = "-s" ]; then SLOT=$2; shift 2; fi
+R=/tmp/seedrepo/r$SLOT; O=/tmp/seedrepo/v$SLOT; S=/tmp/seedrepo/snap$SLOT
+rm -rf $S $O; mkdir -p $S
+rsync -a --exclude .git --exclude replays --exclude bin --exclude seeded --exclude 'mc/go.alt.*' /verif/ $S/
 git -C /repo worktree remove --force $R 2>/dev/null; git -C /repo worktree prune; git -C /repo worktree add --detach $R HEAD >/dev/null 2>&1
 for sid in "$@"; do
   prop=${sid%%-*}
   git -C $R checkout -q -- . ; git -C $R clean -fdq
   if ! git -C $R apply /verif/seeded/$sid/patch.diff 2>/dev/null; then echo "$sid APPLY-FAILED"; continue; fi
-  out=$(VERIF_REPO=$R VERIF_OUT=$O /verif/run.sh $prop quick 2>&1); rc=$?
+  out=$(VERIF_DIR=$S VERIF_REPO=$R VERIF_OUT=$O $S/run.sh $prop quick 2>&1); rc=$?
   kinds=$(echo "$out" | grep -o "kind=[a-z-]*" | sort -u | tr '\n' ' ')
-  echo "$sid rc=$rc $kinds"
+  echo "$sid rc=$rc $kinds $(echo "$out" | grep -m1 -E 'HARNESS-ERROR|crashed' | cut -c1-120)"
 done
-git -C /repo worktree remove --force $R; rm -rf $O
+git -C /repo worktree remove --force $R; rm -rf $O $S
